@@ -264,14 +264,22 @@ def run_case(c, chk, spec_items, spec_meta, grid_items, grid_meta):
         return False
     if not c["tensor"]:
         ref_grid, ref_lines = reference(c, time, system, cfs, H0, D0, rwa, grid)
-        # every transition from the ground state to the one-exciton band shows up at its transition energy
-        ddmax = max(l[1] for l in ref_lines)
-        for (ea, dda, one) in ref_lines:
-            if dda > 1e-3 * ddmax:
-                ia = int(numpy.argmax(one))
-                if data[ia] < 0.5 * one[ia]:
-                    chk.violation("transitions:missing_line:" + tag, "no line at the transition energy %.6g (dipole strength %.4g): data %.4g where "
-                                  "the line alone gives %.4g (grid index %d)" % (ea, dda, data[ia], one[ia], ia), "monitor", c)
+        # every transition from the ground state to the one-exciton band is present in the data: judged against the
+        # independent reference. data minus the reference contributions of all OTHER lines must reproduce this line's own
+        # contribution within the tolerance of the Fourier-integral comparison; it is reported as MISSING when, in addition,
+        # leaving its contribution out of the reference explains the data substantially better (residual more than halved).
+        resid = data - ref_grid
+        err_with = float(numpy.max(numpy.abs(resid)))
+        if err_with > 1e-9 * scale:
+            for (ea, dda, one) in ref_lines:
+                own = float(numpy.max(numpy.abs(one)))
+                err_without = float(numpy.max(numpy.abs(resid + one)))
+                if own > 1e-9 * scale and err_without < 0.5 * err_with:
+                    ia = int(numpy.argmax(numpy.abs(one)))
+                    chk.violation("transitions:missing_line:" + tag, "the line at the transition energy %.6g (dipole strength %.4g) is missing: "
+                                  "data minus all other lines deviates from this line's Fourier integral by %.4g (line maximum %.4g at grid "
+                                  "index %d), the reference without this line is off by only %.4g" % (ea, dda, err_with, own, ia, err_without),
+                                  "monitor", c)
         nband = c["nmol"]
         if len(calls) < nband:
             chk.violation("transitions:missing_line:" + tag, "%d transitions to the one-exciton band, only %d were transformed"
